@@ -43,7 +43,8 @@ RULE = ("One case = one whole event history applied to a fresh FSM (kinds fsm / 
         "timer, codes 0-14 and 255 x identifier current/next/previous/fixed x answer class x data length) and, for two "
         "configurations, by every pair of events from a 22-event alphabet; all sequences of length <= 3 (thorough: 4) "
         "from Initial; random weighted walks of length 60 (thorough 80). The Identifiers of originated packets (start value and policy) are the "
-        "implementation's choice: read from its output and checked for admissibility. Compared exactly after every event: state, "
+        "implementation's choice: read from its output and checked with the extracted Gallina predicate Adm.adm_item (no "
+        "Configure-Request Identifier repeated within the last 255 originated packets; every case kind). Compared exactly after every event: state, "
         "restartCount, timer armed, lastReqID, failCount (the internal Identifier counter f.id is NOT compared), and the list of sends (code, id, payload class) and "
         "layer callbacks, the CONTENT of every Configure-Request sent (predicted from the model of the real handlers' "
         "BuildConfReq over the handler-call log) and every call the FSM makes into the option handler "
